@@ -291,7 +291,7 @@ func ruleAscExtTable(c *Ctx) {
 	var start *ssa.BasicBlock
 	isOT := func(v ssa.Value) bool {
 		f, _, ok := fieldLoad(stripConv(v))
-		return ok && f.Name() == "ObjectType"
+		return ok && theProgram.baseFieldName(f) == "ObjectType"
 	}
 	for _, b := range fn.Blocks {
 		if len(b.Instrs) == 0 {
@@ -321,7 +321,7 @@ func ruleAscExtTable(c *Ctx) {
 			return 0, false
 		}
 		call, ok := stripConv(bo.X).(*ssa.Call)
-		if !ok || call.Call.StaticCallee() == nil || call.Call.StaticCallee().Name() != "Peek" {
+		if !ok || call.Call.StaticCallee() == nil || baseFuncName(call.Call.StaticCallee()) != "Peek" {
 			return 0, false
 		}
 		nb, ok := constInt(call.Call.Args[1])
@@ -516,24 +516,48 @@ func ruleH264HighProfileSet(c *Ctx) {
 		c.Lost("h264.high-profile-block", "no read of chroma_format_idc from the bit stream")
 		return
 	}
-	// profile constants whose equality test leads directly into that block
-	have := map[int64]bool{}
+	// profile values for which the block is reachable: the function's branches on ProfileIdc are
+	// evaluated for each of the 256 values (other conditions stay open), boolean phis are resolved per
+	// incoming edge by the path engine - so an ||-chain, a switch, or a predicate helper decide alike
+	isProfile := func(v ssa.Value) bool {
+		f, _, ok := fieldLoad(stripConv(v))
+		return ok && theProgram.baseFieldName(f) == "ProfileIdc"
+	}
+	tests := 0
 	for _, b := range fn.Blocks {
-		if len(b.Instrs) == 0 {
-			continue
+		for _, ins := range b.Instrs {
+			if bo, ok := ins.(*ssa.BinOp); ok && (bo.Op == token.EQL || bo.Op == token.NEQ) && isProfile(bo.X) {
+				tests++
+			}
 		}
-		ifi, ok := b.Instrs[len(b.Instrs)-1].(*ssa.If)
-		if !ok {
-			continue
+	}
+	have := map[int64]bool{}
+	if tests > 0 {
+		for k := int64(0); k < 256; k++ {
+			kk := k
+			res := RunPath(&PathRule[int8]{Fn: fn, Init: []int8{0},
+				Branch: func(s int8, cond ssa.Value, taken bool) (int8, bool) {
+					bo, ok := cond.(*ssa.BinOp)
+					if !ok || (bo.Op != token.EQL && bo.Op != token.NEQ) || !isProfile(bo.X) {
+						return s, true
+					}
+					cst, ok := constInt(bo.Y)
+					if !ok {
+						return s, true
+					}
+					val := kk == cst
+					if bo.Op == token.NEQ {
+						val = !val
+					}
+					return s, val == taken
+				}})
+			c.paths += res.N
+			if len(res.In[blk]) > 0 {
+				have[k] = true
+			}
 		}
-		bo, ok := ifi.Cond.(*ssa.BinOp)
-		if !ok || bo.Op != token.EQL {
-			continue
-		}
-		f, _, ok := fieldLoad(stripConv(bo.X))
-		k, okk := constInt(bo.Y)
-		if ok && okk && f.Name() == "ProfileIdc" && b.Succs[0] == blk {
-			have[k] = true
+		if len(have) == 256 {
+			have = map[int64]bool{} // the block does not depend on the profile tests that were found
 		}
 	}
 	var missing, wrong []string
@@ -601,7 +625,7 @@ func ruleAscDecodedOnSdpPath(c *Ctx) {
 	guarded, decodes := true, 0
 	instrs(callee, func(ins ssa.Instruction) {
 		cc := callCommon(ins)
-		if cc == nil || cc.StaticCallee() == nil || cc.StaticCallee().Name() != "Decode" {
+		if cc == nil || cc.StaticCallee() == nil || baseFuncName(cc.StaticCallee()) != "Decode" {
 			return
 		}
 		decodes++
@@ -620,7 +644,7 @@ func ruleAscDecodedOnSdpPath(c *Ctx) {
 			}
 			f, _, isF := fieldLoad(stripConv(bo.X))
 			k, isK := constInt(bo.Y)
-			if isF && isK && k == 0 && f.Name() == "SampleRate" && d.Succs[0].Dominates(ins.Block()) && len(d.Succs[0].Preds) == 1 {
+			if isF && isK && k == 0 && theProgram.baseFieldName(f) == "SampleRate" && d.Succs[0].Dominates(ins.Block()) && len(d.Succs[0].Preds) == 1 {
 				ok = true
 			}
 		}
@@ -637,7 +661,7 @@ func ruleAscDecodedOnSdpPath(c *Ctx) {
 	rule := &PathRule[st]{Fn: caller, Init: []st{0},
 		Transfer: func(s st, ins ssa.Instruction) []st {
 			if store, ok := ins.(*ssa.Store); ok {
-				if f, _, ok := fieldAddr(store.Addr); ok && f.Name() == "SampleRate" {
+				if f, _, ok := fieldAddr(store.Addr); ok && theProgram.baseFieldName(f) == "SampleRate" {
 					if k, ok := constInt(stripConv(store.Val)); ok {
 						if k == 0 {
 							return []st{1}
@@ -684,11 +708,11 @@ func ruleAscDecodedOnSdpPath(c *Ctx) {
 	// accepted alternative: parseAudioMeta decodes the config itself and stores the channel count from it
 	direct, fromAsc := false, false
 	instrs(caller, func(ins ssa.Instruction) {
-		if cc := callCommon(ins); cc != nil && cc.StaticCallee() != nil && cc.StaticCallee().Name() == "Decode" && strings.Contains(funcFullName(cc.StaticCallee()), "AudioSpecificConfig") {
+		if cc := callCommon(ins); cc != nil && cc.StaticCallee() != nil && baseFuncName(cc.StaticCallee()) == "Decode" && strings.Contains(funcFullName(cc.StaticCallee()), "AudioSpecificConfig") {
 			direct = true
 		}
 		if store, ok := ins.(*ssa.Store); ok {
-			if f, _, ok := fieldAddr(store.Addr); ok && f.Name() == "Channels" {
+			if f, _, ok := fieldAddr(store.Addr); ok && theProgram.baseFieldName(f) == "Channels" {
 				if f2, b2, ok := fieldLoad(stripConv(store.Val)); ok && f2.Name() == "Channels" && typeIs(b2.Type(), modRel("av/codec/aac"), "AudioSpecificConfig") {
 					fromAsc = true
 				}
